@@ -97,14 +97,20 @@ def _gen_config(dst):
         f.write(src)
 
 
-def _prune(keep=24):
+def _prune(keep=80, min_age_s=4 * 3600):
+    """Old object caches are removed, but never one that may still be in use by a concurrent check."""
     try:
         dirs = [os.path.join(BUILD, d) for d in os.listdir(BUILD) if d.startswith("cfg-")]
     except OSError:
         return
     dirs.sort(key=lambda d: os.path.getmtime(d), reverse=True)
+    now = time.time()
     for d in dirs[keep:]:
-        shutil.rmtree(d, ignore_errors=True)
+        try:
+            if now - os.path.getmtime(d) > min_age_s:
+                shutil.rmtree(d, ignore_errors=True)
+        except OSError:
+            pass
 
 
 def build(name, san, harness_srcs, defines=None, with_main=False, events=False, force_include=None,
